@@ -294,6 +294,20 @@ def eval_lin(case) -> Outcome:
     if not ok:
         out.fail("C17.sut_exception:" + res, f"get_piecewise_data_points raised {res}: {call_sut.last_message}")
         return out
+    if case.get("ints") and all(float(v).is_integer() for p in curve for v in p):
+        # the same polyline spelled with integers (2 instead of 2.0) is the same polyline: every clause holds for it as well, and
+        # beyond that the routine must return the same points - this also decides the >10-breakpoint branch, whose clause
+        # violations on the unchanged tree (finding C17-F3) cannot be told apart by magnitude
+        out.labels.add("integer-typed-samples")
+        oki, resi = call_sut(get_piecewise_data_points, [[int(v) for v in p] for p in curve], hot, eps)
+        if not oki:
+            out.fail("C17.sut_exception:" + resi, f"get_piecewise_data_points raised {resi} on integer-typed samples: {call_sut.last_message}")
+            return out
+        a = [(float(q[0]), float(q[1])) for q in res]
+        b = [(float(q[0]), float(q[1])) for q in resi]
+        if len(a) != len(b) or any(not (abs(x[0] - y[0]) <= 1e-6 * (1 + abs(x[0])) and abs(x[1] - y[1]) <= 1e-6 * (1 + abs(x[1]))) for x, y in zip(a, b)):
+            worst = max((max(abs(x[0] - y[0]), abs(x[1] - y[1])) for x, y in zip(a, b)), default=float("nan"))
+            out.fail("C17.lin_int_float", f"{n}-point profile, tolerance {eps}: integer-typed samples give {len(b)} points, the same numbers as floats give {len(a)}; largest coordinate difference {worst!r}")
     pts = [(float(p[0]), float(p[1])) for p in res]
     if any(not (math.isfinite(p[0]) and math.isfinite(p[1])) for p in pts):
         out.fail("C17.lin_non_finite", f"simplified profile holds a value that is not a finite number: {pts[:6]}")
@@ -356,9 +370,20 @@ def th_profile(draw, tier):
             slope = draw(st.sampled_from([0.0, 0.05, 0.05, 0.2, 0.2, 1.0])) if shape != "plateau" or draw(st.booleans()) else 0.0
             dt = slope * dh if dh > 0 else draw(st.sampled_from([0.5, 2.0]))
             pts.append((round(pts[-1][0] + dh, 6), round(pts[-1][1] + dt, 6)))
+    ints = False
+    if shape in ("curved", "curved-fine") and draw(st.booleans()):
+        # whole-number samples (a tabulated profile): strongly curved so that many breakpoints survive
+        ints = True
+        n = max(n, 25)
+        H = n * int(draw(st.sampled_from([10, 40, 100])))
+        dT = int(draw(st.sampled_from([400, 900, 2000])))
+        p = draw(st.sampled_from([0.5, 2.0, 3.0]))
+        pts = [(float(int(h0) + round(H * i / (n - 1))), float(int(t0) + round(dT * (i / (n - 1)) ** p))) for i in range(n)]
+        pts = [q for k, q in enumerate(pts) if k == 0 or q[0] > pts[k - 1][0]]
+        eps = draw(st.sampled_from([0.25, 0.5, 1.0]))
     if hot:
         pts = pts[::-1]  # supply -> target: enthalpy and temperature both fall
-    return {"curve": [list(p) for p in pts], "eps": eps, "hot": hot, "shape": shape}
+    return {"curve": [list(p) for p in pts], "eps": eps, "hot": hot, "shape": shape, "ints": ints}
 
 
 PARTS = [
